@@ -145,6 +145,12 @@ def ambiguous_grammar(rng, table):
     alts = []
     header = "E"
     default = None
+    # levels are written as arbitrary strictly increasing priorities (0, the default 10 and big values included)
+    levels = sorted(set(l for l, _ in table.values()))
+    pool = [0, 1, 2, 3, 5, 9, 10, 11, 12, 20, 50, 1000]
+    start = rng.randint(0, len(pool) - len(levels))
+    prio = dict(zip(levels, pool[start : start + len(levels)]))
+    table = {o: (prio[l], a) for o, (l, a) in table.items()}
     if rng.random() < 0.4:
         default = table[rng.choice(sorted(table))]  # (priority, assoc) of one operator
         header = "E {%s, %d}" % (default[1], default[0])
